@@ -1,3 +1,4 @@
+import re
 """K4 decision tables: path-sensitive constant propagation over a loop-free
 region of one MIR body.  Enumerates all acyclic entry->return paths, records
 the branch conditions taken (origin of the discriminant + label set), the calls
@@ -209,6 +210,23 @@ def known_label(o):
             continue
         if o.kind == 'agg' and o.rv.get('kind') == 'adt' and o.rv.get('variant'):
             return o.rv['variant']
+        if o.kind == 'place':
+            # payload of a known aggregate: Some(X)@Some.0 is X
+            base = o.base
+            while base is not None and base.kind in ('ref', 'cast'):
+                base = base.base
+            proj = [x for x in o.proj if x != '*']
+            if base is not None and base.kind == 'agg' and getattr(base, 'ops', None) is not None:
+                vn = base.rv.get('variant')
+                if vn and proj and proj[0] == '@' + vn:
+                    proj = proj[1:]
+                if len(proj) == 1 and re.match(r'^\.\d+$', proj[0]) and int(proj[0][1:]) < len(base.ops):
+                    o = base.ops[int(proj[0][1:])]
+                    continue
+                if not proj:
+                    o = base
+                    continue
+            return None
         if o.kind == 'const':
             if o.value in (0, 1) and getattr(o, 'ty', '') == 'bool':
                 return 'true' if o.value else 'false'
@@ -248,6 +266,7 @@ class Path:
 
 
 _PATH_FACTS = [None]
+_PANIC = re.compile(r'^(core|std)::(panicking::|rt::begin_panic|rt::panic_fmt|option::expect_failed|result::unwrap_failed|option::unwrap_failed)')
 
 
 def enumerate_paths(body, facts=None, start=0, max_paths=50000, stop_calls=None, max_visits=1):
@@ -357,6 +376,9 @@ def enumerate_paths(body, facts=None, start=0, max_paths=50000, stop_calls=None,
                 out.append(p)
                 return
             if t.get('to') is None:
+                if _PANIC.search(callee_name(t) or ''):
+                    # a failed assertion / explicit panic: the path produces no outcome to judge (debug_assert!, unreachable!)
+                    return
                 p = Path()
                 p.blocks = blocks
                 p.conds = conds
